@@ -573,7 +573,10 @@ func (g *G) assignStmt() {
 		if g.r.Chance(0.5) {
 			g.emit("err = %s", g.expr(Bool, 2))
 		} else {
-			g.emit("errmsg = %s", g.expr(Str, 1))
+			// never a bare variable on the right: plain assignment shares the value object (observed on
+			// the pinned tree, C09's business), and a conversion that then writes errmsg in place would
+			// quote the variable's own text into itself - exponential growth in a loop
+			g.emit("errmsg = \"\" + %s", g.expr(Str, 1))
 		}
 		if g.r.Chance(0.5) {
 			g.emit("print (str2num %s) err errmsg", []string{"\"12x\"", "\"7\"", "\"\""}[g.r.Intn(3)])
